@@ -48,3 +48,47 @@ Proof.
   intros H p Hp. specialize (H p Hp). simpl in H. rewrite orb_false_r in H.
   apply str_eqb_spec in H. now subst.
 Qed.
+
+(* ---------- router: direction flags (C04, C05) ---------- *)
+
+(* the protocol's table: tag, sent by clients?, sent by devices? *)
+Definition spec_flags : list (string * bool * bool) := [
+  ("getProperties", true, true); ("enableBLOB", true, false); ("pingReply", true, false);
+  ("newTextVector", true, false); ("newNumberVector", true, false);
+  ("newSwitchVector", true, false); ("newBLOBVector", true, false);
+  ("delProperty", false, true); ("message", false, true); ("pingRequest", false, true);
+  ("oneLight", false, true);
+  ("defTextVector", false, true); ("defNumberVector", false, true); ("defSwitchVector", false, true);
+  ("defLightVector", false, true); ("defBLOBVector", false, true);
+  ("setTextVector", false, true); ("setNumberVector", false, true); ("setSwitchVector", false, true);
+  ("setLightVector", false, true); ("setBLOBVector", false, true)
+]%string.
+
+Definition spec_flag_of (t : str) : option (bool * bool) :=
+  match find (fun x => str_eqb (s2l (fst (fst x))) t) spec_flags with
+  | Some (_, c, d) => Some (c, d)
+  | None => None
+  end.
+
+(* every registered class carries the protocol's direction flags, every
+   protocol message is registered, and the default policy is Never *)
+Definition reg_ok_router (R : registry) : bool :=
+  forallb (fun c => match spec_flag_of (ctag c) with
+                    | Some (fc, fd) => Bool.eqb (cclient c) fc && Bool.eqb (cdevice c) fd
+                    | None => false
+                    end) (rmsgs R) &&
+  forallb (fun x => match find_mclass R (s2l (fst (fst x))) with Some _ => true | None => false end) spec_flags &&
+  str_eqb (rdefault_policy R) (s2l "Never").
+
+Definition flags_of (R : registry) (t : str) : option (bool * bool) :=
+  option_map (fun c => (cclient c, cdevice c)) (find_mclass R t).
+
+Lemma reg_ok_router_flags R t c :
+  reg_ok_router R = true -> find_mclass R t = Some c ->
+  spec_flag_of (ctag c) = Some (cclient c, cdevice c).
+Proof.
+  unfold reg_ok_router. intros H F. apply andb_prop in H as [H _]. apply andb_prop in H as [H _].
+  rewrite forallb_forall in H. unfold find_mclass in F. apply find_last_in in F. specialize (H _ F).
+  destruct (spec_flag_of (ctag c)) as [[fc fd]|]; [|discriminate].
+  apply andb_prop in H as [H1 H2]. apply Bool.eqb_prop in H1. apply Bool.eqb_prop in H2. now subst.
+Qed.
